@@ -204,13 +204,20 @@ class SqliteDLQMixin:
         """
         conn = self._get_connection()
 
-        # Find messages that have exceeded max_attempts
+        # Find messages that have exceeded max_attempts. poll_one() filters on
+        # the queue-level limit while rows carry their own max_attempts (rows
+        # pushed inside a store transaction default to 10): a row past the
+        # queue's limit is never polled again, so it must be swept here too or
+        # it stays in the queue forever, neither delivered nor dead-lettered.
+        queue_limit = getattr(self, "max_attempts", None)
         result = conn.execute(
             f"""
             SELECT id, message_type, attempts
             FROM {self.table_name}
             WHERE attempts >= max_attempts
+               OR (:queue_limit IS NOT NULL AND attempts >= :queue_limit)
             """,
+            {"queue_limit": queue_limit},
         )
         rows = result.fetchall()
 
